@@ -9,6 +9,17 @@ use crate::util::{catch, hex_trunc, Rng, J};
 
 pub mod c01;
 pub mod c02;
+pub mod c03;
+pub mod c04;
+pub mod c05;
+pub mod c06;
+pub mod c07;
+pub mod c08;
+pub mod c12;
+pub mod c17;
+pub mod c14;
+pub mod io;
+pub mod c18;
 
 /// A type under test at a given current version, with a label for reports.
 pub struct Subject<'a> {
@@ -91,6 +102,16 @@ pub fn run(prop: &str, ctx: &mut Ctx, reg: &Registry) {
     match prop {
         "C01" => c01::run(ctx, reg),
         "C02" => c02::run(ctx, reg),
+        "C03" => c03::run(ctx, reg),
+        "C04" => c04::run(ctx, reg),
+        "C05" => c05::run(ctx, reg),
+        "C06" => c06::run(ctx, reg),
+        "C07" => c07::run(ctx, reg),
+        "C08" => c08::run(ctx, reg),
+        "C14" => c14::run(ctx, reg),
+        "C12" => c12::run(ctx, reg),
+        "C17" => c17::run(ctx, reg),
+        "C18" => c18::run(ctx, reg),
         _ => ctx.inconclusive(format!("unknown property {}", prop)),
     }
 }
